@@ -297,3 +297,15 @@ def rand_session(rng, n_ops=60, malformed=0, traffic=3, cfgcmds=3):
             ops.append(("state",))
     ops.append(("state",))
     return defs, ops
+
+
+def rejected_cmd(rng):
+    """a control command that must be refused (or ignored) WITHOUT any effect on the transceiver, with integer arguments only:
+    every property's session generator sprinkles these in - whatever the property tracks must not move"""
+    f = lambda: rng.choice(FREQS)
+    return cmd(rng.choice([
+        "CMD SETFH 64 0 %d %d" % (f(), f()), "CMD SETFH -1 1 %d %d" % (f(), f()), "CMD SETFH 100 0 %d %d %d %d" % (f(), f(), f(), f()),
+        "CMD SETFORMAT 16", "CMD SETFORMAT -1", "CMD SETFORMAT 7", "CMD SETFORMAT 2", "CMD SETFORMAT 15",
+        "CMD SETTA 64", "CMD SETTA -1", "CMD FAKE_DROP -1", "CMD FAKE_DROP 2 0", "CMD FAKE_DROP 3 -1", "CMD FAKE_DROP 0 0",
+        "CMD FAKE_TOA 10 -5", "CMD FAKE_CI 10 -5", "CMD FOO 1 2", "CMD NOHANDOVER 1 2", "CMD SETTSC 7", "CMD SETRXGAIN 10",
+        "CMD ECHO", "CMD RXTUNE", "CMD TXTUNE 1 2", "CMD SETFH 1"]))
